@@ -468,6 +468,10 @@ class ArgumentParser(ParserDeprecations, ActionsContainer, ArgumentLinking, argp
         except (TypeError, KeyError) as ex:
             self.error(str(ex), ex)
 
+        finally:
+            if hasattr(self, "print_config") and not hasattr(self, "parent_parser"):
+                delattr(self, "print_config")  # a failed parse must not leave a pending request
+
         self._logger.debug("Parsed command line arguments: %s", args)
         return parsed_cfg
 
